@@ -1210,6 +1210,61 @@ async fn system_scenarios(out: &mut Out) {
             bad.push(format!("GET {}: A {:?}, B {:?}", k, ga, gb));
         }
     }
+    // multi-key MSET / MGET / EXISTS whose keys live on different shards of the 16 (forwarded by the
+    // C05 builder): `execute` routes them whole to the FIRST key's shard (get_primary_key), the
+    // per-key fan-out of execute_global is never reached
+    {
+        let shard_of = |key: &str| {
+            use std::hash::{Hash, Hasher};
+            let mut h = std::collections::hash_map::DefaultHasher::new();
+            key.hash(&mut h);
+            (h.finish() as usize) % 16
+        };
+        let k1 = "ab".to_string();
+        let k2 = (0..200).map(|i| format!("w{}", i)).find(|k| shard_of(k) != shard_of(&k1)).unwrap_or("w".into());
+        let (c, crx) = mk(3);
+        let (d, _drx) = mk(4);
+        let mut h2: Vec<String> = Vec::new();
+        let int = |r: &RespValue| if let RespValue::Integer(n) = r { Some(*n) } else { None };
+        let r1 = c.execute(Command::Incr(k2.clone())).await;
+        h2.push(format!("C: INCR {} -> {:?}", k2, int(&r1)));
+        let r2 = c.execute(Command::MSet(vec![(k1.clone(), s("5")), (k2.clone(), s("-3"))])).await;
+        h2.push(format!("C: MSET {} 5 {} -3 -> {:?}", k1, k2, r2));
+        let g2 = c.execute(Command::Get(k2.clone())).await;
+        h2.push(format!("C: GET {} -> {:?}", k2, String::from_utf8_lossy(&bulk(&g2))));
+        let mg = c.execute(Command::MGet(vec![k1.clone(), k2.clone()])).await;
+        let singles = vec![c.execute(Command::Get(k1.clone())).await, c.execute(Command::Get(k2.clone())).await];
+        // a third key, on yet another shard than k1, written by a plain SET only
+        let k3 = (0..200).map(|i| format!("x{}", i)).find(|k| shard_of(k) != shard_of(&k1)).unwrap_or("x".into());
+        c.execute(Command::set(k3.clone(), s("z"))).await;
+        let ex = c.execute(Command::Exists(vec![k1.clone(), k3.clone()])).await;
+        let ex1 = int(&c.execute(Command::Exists(vec![k1.clone()])).await).unwrap_or(-1) + int(&c.execute(Command::Exists(vec![k3.clone()])).await).unwrap_or(-1);
+        h2.push(format!("C: MGET {} {} -> {:?}; SET {} z; EXISTS {} {} -> {:?} (single EXISTS sum {})", k1, k2, mg, k3, k1, k3, int(&ex), ex1));
+        // what the peer gets (MSET as the property's SETs would replicate; today nothing is shipped)
+        d.apply_remote_deltas(crx.drain());
+        let dg = d.execute(Command::Get(k2.clone())).await;
+        h2.push(format!("D (peer, after delivery of everything C shipped): GET {} -> {:?}", k2, String::from_utf8_lossy(&bulk(&dg))));
+        let mset_ok = bulk(&g2) == b"-3";
+        let mget_ok = matches!(&mg, RespValue::Array(Some(v)) if v.len() == 2 && bulk(&v[0]) == bulk(&singles[0]) && bulk(&v[1]) == bulk(&singles[1]));
+        let exists_ok = int(&ex) == Some(ex1);
+        out.count(if mset_ok { "b:system:mset-across-shards:holds" } else { "b:system:mset-across-shards:fails" });
+        out.count(if mget_ok { "b:system:mget-across-shards:holds" } else { "b:system:mget-across-shards:fails" });
+        out.count(if exists_ok { "b:system:exists-across-shards:holds" } else { "b:system:exists-across-shards:fails" });
+        out.case("B:system:multi-key-across-shards", true);
+        for (ok, what) in [(mset_ok, "mset"), (mget_ok, "mget"), (exists_ok, "exists")] {
+            if !ok {
+                out.violation(
+                    &format!("C06:front-end:multi-key-routed-by-first-key:{}", what),
+                    "ReplicatedShardedState::execute hands a multi-key MSET / MGET / EXISTS whole to the FIRST key's shard: an acknowledged MSET pair is not readable on the node that accepted it, MGET / EXISTS do not answer what single-key reads of the same node answer",
+                    json!({"history": h2.clone()}),
+                );
+            }
+        }
+        // after the repair MSET ships one delta per pair: the peer must serve the pair too
+        if mset_ok && bulk(&dg) != b"-3" {
+            out.violation("C06:front-end:mset-not-replicated-per-key", "MSET is executed per key but its pairs do not reach the peer", json!({"history": h2}));
+        }
+    }
     out.count(if bad.is_empty() { "b:system:multi-key-del:holds" } else { "b:system:multi-key-del:fails" });
     out.case("B:system:multi-key-del", true);
     if !bad.is_empty() {
